@@ -219,6 +219,20 @@ Proof.
 Qed.
 Print Assumptions trim_matches_laws.
 
+(* T4 replace (non-empty pattern), complete functional statement: the string is its pieces joined by the
+   pattern, the result is the same pieces joined by the replacement, and no piece contains the pattern
+   (the replaced occurrences are the leftmost non-overlapping ones); replacing p by p is the identity *)
+Theorem replace_spec : forall s p r, p <> [] ->
+  join p (pieces p s) = s /\ op_replace s p r = join r (pieces p s) /\
+  Forall (fun x => find_sub p x = None) (pieces p s) /\ op_replace s p p = s.
+Proof. exact replace_lemma. Qed.
+Print Assumptions replace_spec.
+
+Example replace_spec_example :
+  pieces [97; 97] [97; 97; 97; 98; 97; 97] = [[]; [97; 98]; []] /\
+  op_replace [97; 97; 97; 98; 97; 97] [97; 97] [120] = [120; 97; 98; 120].
+Proof. exact replace_pieces_example. Qed.
+
 (* the overlapping case: the ends must not be located independently *)
 Example trim_overlap : trim_end_matches [97; 97] (trim_start_matches [97; 97] [97; 97; 97]) = [97] /\
   trim_end_matches [97; 97] [97; 97; 97] = [97] /\ trim_start_matches [97; 97] [97; 97; 97] = [97].
